@@ -10,6 +10,11 @@
 # Environment: SPI master shaped like the repository's own SPIGatewareTestCase.spi_send_bit with quarter period q:
 #   SDI=b, SCK low q cycles; SCK high 2q cycles; SCK low q cycles (SDI still b).  CS set-up / hold / gap >= q cycles.
 #   The SFR's read input only changes while CS is inactive.
+#   Configs with cs_offsets additionally release CS at *every* cycle offset e = 0..4q inside a bit period (action
+#   "rbit"): e = q / 3q are the same cycle as the SCK rising / falling edge; a falling edge in a cycle in which CS is
+#   already inactive does not count (the transaction is aborted unless it was complete before); e = 3q+1, 3q+2, ...
+#   release CS one, two, ... cycles after the falling edge (the bit counts; if it was the last data bit the
+#   transaction is complete and must take effect).  SCK finishes its period while deselected.
 # Oracle (from the statement):
 #   * data phase: in the second half of every SCK-high phase (where the repo's helper samples) SDO is the next bit,
 #     MSB first, of the value the addressed register had during the transaction (autoneg: all ones; unassigned: DEF);
@@ -29,13 +34,18 @@ TECHNIQUE = "BFS over SPI-master macro steps (one bit per step, aborts after eve
 def configs(tier):
     # aborts = number of transactions aborted before completion per history (-1 = unlimited, i.e. full closure)
     if tier == "quick":
-        return [dict(A=1, R=2, q=4, data="full", sfr_vals=[1, 2], layout="tiny", aborts=-1),
+        return [dict(A=1, R=2, q=4, data="full", sfr_vals=[1, 2], layout="tiny", aborts=-1, cs_offsets=True),
+                dict(A=2, R=2, q=3, data=[0x2, 0x1], sfr_vals=[0x3], aborts=1, cs_offsets=True),
                 dict(A=2, R=3, q=4, data=[0x5, 0x2], sfr_vals=[0x6], aborts=1),
                 dict(A=3, R=4, q=4, data=[0x6, 0x9], sfr_vals=[0xA], aborts=1),
                 dict(A=2, R=2, q=3, data=[0x2, 0x1], sfr_vals=[0x3, 0x0], aborts=1)]
-    return [dict(A=1, R=2, q=4, data="full", sfr_vals=[1, 2], layout="tiny", aborts=-1),
-            dict(A=1, R=3, q=3, data="full", sfr_vals=[1, 2], layout="tiny", aborts=-1),
+    return [dict(A=1, R=2, q=4, data="full", sfr_vals=[1, 2], layout="tiny", aborts=-1, cs_offsets=True),
+            dict(A=1, R=3, q=3, data="full", sfr_vals=[1, 2], layout="tiny", aborts=-1, cs_offsets=True),
             dict(A=2, R=2, q=4, data="full", sfr_vals=[0x1], aborts=-1),
+            dict(A=2, R=2, q=3, data="full", sfr_vals=[0x1], aborts=2, cs_offsets=True),
+            dict(A=2, R=3, q=4, data=[0x5, 0x2], sfr_vals=[5], aborts=1, cs_offsets=True),
+            dict(A=3, R=4, q=3, data=[0x6, 0x9], sfr_vals=[0xA], aborts=1, cs_offsets=True),
+            dict(A=2, R=3, q=5, data=[0x5, 0x2], sfr_vals=[5], aborts=1, cs_offsets=True),
             dict(A=2, R=3, q=4, data="full", sfr_vals=[5, 2], aborts=1),
             dict(A=2, R=3, q=3, data=[0x5, 0x2, 0x7], sfr_vals=[5, 2], aborts=2),
             dict(A=2, R=3, q=5, data=[0x5, 0x2, 0x0], sfr_vals=[5], aborts=2),
@@ -74,6 +84,7 @@ class RegSpec(Spec):
         self.time_budget = 600 if tier == "quick" else 3000     # safety net only; sized to finish in seconds
         self.max_states = 400_000 if tier == "quick" else 3_000_000
         self.abort_budget = cfg.get("aborts", 1)
+        self.cs_offsets = bool(cfg.get("cs_offsets"))
 
     def build(self):
         from amaranth import Signal
@@ -119,11 +130,15 @@ class RegSpec(Spec):
                 if ok:
                     acts.append(("bit", b))
                     if may_abort: acts.append(("habort", b))
+                    if self.cs_offsets:
+                        for e in range(4 * self.q + 1):
+                            completes = e > 3 * self.q and n + 1 == self.total
+                            if may_abort or completes: acts.append(("rbit", b, e))
         return acts
 
     def assumptions(self):
         return ["SPI master timing as in the repo's SPIGatewareTestCase.spi_send_bit: SDI stable from q cycles before the rising edge to q cycles after the falling edge, SCK high 2q and low 2q cycles, q in {3,4,5} (the test suite uses 4)",
-                "CS active >= q cycles before the first SCK edge; CS released >= q cycles after the last falling edge, or (mid-bit abort) while SCK is high; CS inactive >= q+1 cycles between transactions; SCK low while CS is asserted",
+                "CS active >= q cycles before the first SCK edge; CS released >= q cycles after the last falling edge, or (mid-bit abort) while SCK is high, or (configs with cs_offsets) at every cycle offset 0..4q of a bit period incl. the same cycle as either SCK edge; a falling edge in a cycle with CS already inactive does not count; a transaction whose last falling edge happened with CS active is complete however soon CS is released afterwards; CS inactive >= q+1 cycles between transactions; SCK low while CS is asserted",
                 "the SFR's read input changes only while CS is inactive",
                 "SDO is compared where the repo's helper samples it and until the falling edge (second half of SCK high)",
                 "a write's strobe/update must appear before the next SCK falling edge or next CS assertion; no exact latency demanded",
@@ -213,6 +228,32 @@ class RegSpec(Spec):
             self._deadline(st, "next CS assertion")
             self._run(cur, st, q, sck=0, sdi=0, cs=1)
             st.update(active=1, n=0, sh=0)
+        elif kind == "rbit":
+            # one bit period with CS active only during its first e cycles; ends the transaction
+            b, e = a[1], a[2]
+            self._decode(st)
+            n = st["n"]
+            in_data = A + 1 <= n < self.total
+            exp = (st["readval"] >> (R - 1 - (n - (A + 1)))) & 1 if in_data else None
+            counted = e > 3 * q
+            for lo, hi, sck, chk in ((0, q, 0, None), (q, 2 * q, 1, None), (2 * q, 3 * q, 1, exp), (3 * q, 4 * q, 0, None)):
+                if lo == 3 * q and counted:
+                    self._deadline(st, "next SCK falling edge")
+                    self._count_bit(st, n, b)
+                on = max(0, min(hi, e) - lo)
+                if on: self._run(cur, st, on, sdo_expect=chk, sck=sck, sdi=b, cs=1)
+                if hi - lo - on: self._run(cur, st, hi - lo - on, sck=sck, sdi=b, cs=0)
+            self._run(cur, st, 1, sck=0, sdi=b, cs=0)
+            nf = st["n"]
+            if nf < self.total:
+                if n > 0 or e > q:
+                    self.cover["abort_offset"] += 1
+                    if st["ab"] > 0: st["ab"] -= 1
+                if e == 3 * q: self.cover["release_with_falling_edge"] += 1
+                if e == q: self.cover["release_with_rising_edge"] += 1
+            elif nf == self.total and counted:
+                self.cover["release_%d_after_last_edge" % min(e - 3 * q, 3)] += 1
+            st.update(active=0, n=0, sh=0)
         elif kind in ("bit", "habort"):
             b = a[1]
             self._decode(st)
@@ -235,25 +276,7 @@ class RegSpec(Spec):
             else:
                 # the falling edge the device sees next completes this bit
                 self._deadline(st, "next SCK falling edge")
-                st["n"] = n + 1
-                st["sh"] = ((st["sh"] << 1) | b) if n < self.total else st["sh"]
-                if st["n"] == self.total:
-                    cmd = st["sh"] >> R
-                    data = st["sh"] & self.mask
-                    is_write, addr = cmd >> A, cmd & ((1 << A) - 1)
-                    self.cover["complete"] += 1
-                    if is_write:
-                        if addr == self.RW:
-                            st["pend"] = ("rw", data, 0, 0); self.cover["write_rw"] += 1
-                        elif self.SFR is not None and addr == self.SFR:
-                            st["pend"] = ("sfr", data, 0, 0); self.cover["write_sfr"] += 1
-                        else:
-                            self.cover["write_other"] += 1
-                    else:
-                        self.cover["read"] += 1
-                        if addr == self.RW and st["rw"] != self.INIT: self.cover["read_back_written"] += 1
-                elif st["n"] > self.total:
-                    self.cover["surplus_bit"] += 1
+                self._count_bit(st, n, b)
                 self._run(cur, st, q, sck=0, sdi=b, cs=1)
         else:
             if 0 < st["n"] < self.total:
@@ -266,10 +289,34 @@ class RegSpec(Spec):
         self.outcomes.add((kind, st["pend"] is not None))
         return tuple(st[k] for k in ("active", "n", "sh", "rw", "sfr_in", "pend", "ab"))
 
+    def _count_bit(self, st, n, b):
+        A, R = self.A, self.R
+        st["n"] = n + 1
+        st["sh"] = ((st["sh"] << 1) | b) if n < self.total else st["sh"]
+        if st["n"] == self.total:
+            cmd = st["sh"] >> R
+            data = st["sh"] & self.mask
+            is_write, addr = cmd >> A, cmd & ((1 << A) - 1)
+            self.cover["complete"] += 1
+            if is_write:
+                if addr == self.RW:
+                    st["pend"] = ("rw", data, 0, 0); self.cover["write_rw"] += 1
+                elif self.SFR is not None and addr == self.SFR:
+                    st["pend"] = ("sfr", data, 0, 0); self.cover["write_sfr"] += 1
+                else:
+                    self.cover["write_other"] += 1
+            else:
+                self.cover["read"] += 1
+                if addr == self.RW and st["rw"] != self.INIT: self.cover["read_back_written"] += 1
+        elif st["n"] > self.total:
+            self.cover["surplus_bit"] += 1
+
     def goals(self):
         g = ["complete", "read", "write_rw", "strobe_rw", "read_back_written", "abort", "abort_in_data", "abort_mid_bit",
              "surplus_bit", "sdo_checked", "write_other"]
         if self.SFR is not None: g += ["write_sfr", "strobe_sfr"]
+        if self.cs_offsets:
+            g += ["abort_offset", "release_with_falling_edge", "release_with_rising_edge", "release_1_after_last_edge", "release_2_after_last_edge"]
         return g
 
 
